@@ -621,6 +621,55 @@ MUTANTS = [
             })
             .map(|e| e.id());
 """),
+    dict(id="c01-acceptance-default-features", prop="C01", expect="R01.8|features", file="crates/wac-types/src/package.rs",
+         old="""        let mut validator = Validator::new_with_features(WasmFeatures::all());""",
+         new="""        let mut validator = Validator::new();"""),
+    dict(id="c02-instantiation-returns-component-index", prop="C02", expect="R02.1|own-emission|instantiation", file="crates/wac-graph/src/graph.rs",
+         old="""            "instantiation of package `{package}` encoded to instance index {index}",
+            package = package.name(),
+        );
+
+        index
+    }""",
+         new="""            "instantiation of package `{package}` encoded to instance index {index}",
+            package = package.name(),
+        );
+
+        component_index
+    }"""),
+    dict(id="c04-import-name-unguarded", prop="C04", expect="R04.1|own-guard|import-name", file="crates/wac-parser/src/resolution.rs",
+         old="""        if let Some(name) = state.graph.get_import_name(node) {
+            if world.imports.contains_key(name) {
+                return Ok((name.to_string(), item, ident.span));
+            }
+        } else if""",
+         new="""        if let Some(name) = state.graph.get_import_name(node) {
+            return Ok((name.to_string(), item, ident.span));
+        } else if"""),
+    dict(id="c06-alias-without-package", prop="C06", expect="R06.10|alias-inherits-package", file="crates/wac-graph/src/graph.rs",
+         old="""        let node = Node::new(NodeKind::Alias, *kind, instance_node.package);""",
+         new="""        let node = Node::new(NodeKind::Alias, *kind, None);"""),
+    dict(id="c13-field-docs-twice", prop="C13", expect="R13.7|docs-once|Field", file="crates/wac-parser/src/ast/printer.rs",
+         old="""        for field in &decl.fields {
+            self.docs(&field.docs)?;
+            self.indent()?;""",
+         new="""        for field in &decl.fields {
+            self.docs(&field.docs)?;
+            self.docs(&field.docs)?;
+            self.indent()?;"""),
+    dict(id="c13-doc-line-trim-end-only", prop="C13", expect="R13.8|doc-line-trimmed", file="crates/wac-parser/src/ast/printer.rs",
+         old="""line = line.trim())?;""", new="""line = line.trim_end())?;"""),
+    dict(id="c14-import-resource-keyed-by-import-name", prop="C14", expect="R14.8|key|resources|import_resource", file="crates/wac-graph/src/encoding.rs",
+         old="""            log::debug!("encoded import for resource `{name}` to type index {index}");
+            index
+        };
+
+        state.current.resources.insert(resource.name.clone(), index);""",
+         new="""            log::debug!("encoded import for resource `{name}` to type index {index}");
+            index
+        };
+
+        state.current.resources.insert(name.to_string(), index);"""),
     dict(id="c12-lexical-comment-needs-newline", prop="C12", expect="R12.10|pattern|Token::Comment", file="crates/wac-parser/src/lexer.rs",
          old="""    #[regex(r"//[^\\n]*", logos::skip)]""", new="""    #[regex(r"//[^\\n]*\\n", logos::skip)]"""),
     dict(id="c12-lexical-ident-digit-start", prop="C12", expect="R12.10|pattern|Token::Ident", file="crates/wac-parser/src/lexer.rs",
